@@ -21,6 +21,11 @@ from amaranth.hdl import _nir as nir
 from amaranth.hdl._ir import build_netlist
 
 
+# Register names and widths of the unit on the reference tree (set by the driver per contract, from probe_baseline.json):
+# lets a contract follow a *renamed* internal register (see TS.resolve).
+REFERENCE_REGS = {}
+
+
 class Unsupported(Exception):
     """The unit contains something outside the translated subset."""
 
@@ -74,6 +79,8 @@ class TS:
         self.inputs, self.outputs = {}, {}
         self.cellval = {}
         self.clock_inputs, self.reset_inputs = [], []
+        self.probes = {}
+        self.rebound = []
         self._build()
         self._index_names()
 
@@ -464,8 +471,34 @@ class TS:
         if len(cands) == 1:
             return cands[0]
         if not cands:
+            alt = self._renamed_register(want)
+            if alt is not None:
+                return alt
             raise BindingError(f"no signal at path {path!r}")
         raise BindingError(f"ambiguous signal path {path!r}: {cands}")
+
+    def _renamed_register(self, want):
+        """`want` (a stripped path) named a flip-flop on the reference tree and is gone.  If exactly one flip-flop of the
+        same width in the same module is new (its name is unknown on the reference tree), follow the rename.  The choice is
+        recorded (self.rebound) and marks the contract degraded: a wrong guess can only make invariants fail, and failures
+        of a degraded contract are reported as violations only with a replayed ensures-level witness."""
+        ref = REFERENCE_REGS.get(self.prefix + want)
+        if ref is None:
+            return None
+        mod = want.rsplit('.', 1)[0] + '.' if '.' in want else ''
+        by_sig = {id(sg): p for p, sg in self.paths.items()}
+        cands = []
+        for k, sg in self.ff_signal.items():
+            if k[0] != 'ff':
+                continue
+            name = self._strip(str(self.state[k]))[len(self.prefix):]
+            nmod = name.rsplit('.', 1)[0] + '.' if '.' in name else ''
+            if nmod == mod and len(sg) == ref and (self.prefix + name) not in REFERENCE_REGS and id(sg) in by_sig:
+                cands.append(by_sig[id(sg)])
+        if len(cands) == 1:
+            self.rebound.append(f"{want} -> {cands[0]} (renamed register, width {ref})")
+            return cands[0]
+        return None
 
     def sig(self, path):
         if path in self.inputs: return self.inputs[path]
@@ -477,6 +510,19 @@ class TS:
         return self.prefix + name
 
     def has(self, path):
+        """Probe for an optional name.  Every probe is recorded (self.probes): a name that resolves on the reference
+        tree (probe_baseline.json) but not on the tree being checked marks the contract as degraded."""
+        ok = self._has(path)
+        self.probes["has:" + path] = ok
+        return ok
+
+    def has_reg(self, name):
+        """Probe for a register by its z3 name ('module.signal')."""
+        ok = any(str(v) == self.prefix + name for v in self.state.values())
+        self.probes["reg:" + name] = ok
+        return ok
+
+    def _has(self, path):
         if path in self.inputs or path in self.outputs or path in self.paths:
             return True
         try:
@@ -517,7 +563,16 @@ class TS:
         return objs[0]
 
     def find(self, suffix):
-        return [p for p in self.paths if p == suffix or p.endswith('.' + suffix)]
+        r = [p for p in self.paths if p == suffix or p.endswith('.' + suffix)]
+        if not r:                                   # a register of that name on the reference tree may have been renamed
+            for ref in REFERENCE_REGS:
+                want = ref[len(self.prefix):] if ref.startswith(self.prefix) else ref
+                if want == suffix or want.endswith('.' + suffix):
+                    alt = self._renamed_register(want)
+                    if alt is not None and alt not in r:
+                        r.append(alt)
+        self.probes["find:" + suffix] = bool(r)
+        return r
 
     # ------------------------------------------------------------------ substitutions
     def state_vars(self):
